@@ -57,6 +57,8 @@ def run(chk):
     chk.validate('inline-pa', 'Trace_MM', 'Trace_MM.cfg', irecs, driver='mm', jobs=12)
     # helpers the aligners build on (interleave, sample_random_mapping, ...): Utils.tla
     chk.mc('layout-helpers', 'MC_Utils', 'MC_Utils.cfg', workers=8)
+    frecs = core.run_driver('mm', tier=chk.tier, seed=chk.seed, args=dict(prop='inlinepaf'))
+    chk.validate('inline-pa-float', 'Trace_MM', 'Trace_MM.cfg', frecs, driver='mm', jobs=4)
     # alignment inside EM (hooked CACGMM fits with an inline aligner, with and without a source-activity mask): the align
     # event must be a pure class reordering of the E-step event, for posteriors and quadratic forms alike
     erecs = core.run_driver_parallel('em', tier=chk.tier, seed=chk.seed, cases=core.run_cases('em', chk.tier, chk.seed, dict(prop='C14')),
